@@ -32,12 +32,12 @@ type c06File struct {
 }
 
 type c06Case struct {
-	Base []c06File `json:"base"`           // directory for which the sum file is written
-	Edit string    `json:"edit"`           // description
-	Dir  []c06File `json:"dir"`            // directory that is validated
-	Sum  *string   `json:"sum"`            // atlas.sum that is validated (nil: the one written for Base; "" string means empty file)
-	NoSum bool     `json:"no_sum"`         // validate without any sum file
-	Kind string    `json:"kind"`           // mem | local
+	Base  []c06File `json:"base"`   // directory for which the sum file is written
+	Edit  string    `json:"edit"`   // description
+	Dir   []c06File `json:"dir"`    // directory that is validated
+	Sum   *string   `json:"sum"`    // atlas.sum that is validated (nil: the one written for Base; "" string means empty file)
+	NoSum bool      `json:"no_sum"` // validate without any sum file
+	Kind  string    `json:"kind"`   // mem | local
 }
 
 type c06Out struct {
